@@ -2,8 +2,8 @@
 # Runs every seeded change against the quick check of its own property (and extra checks given per seed below);
 # writes /verif/seeded/<seed>/caught.txt. /repo must be clean and no background job may be using it.
 cd /verif
-declare -A EXTRA=( [C05-b]="C16" [C08-a]="C04 C05" [C08-b]="C12" [C10-b]="C20" [C11-a]="C12" [C12-a]="C11" [C13-a]="C04" [C13-b]="C01" [C19-b]="C04 C05" [C04-a]="C05 C13" [C03-b]="C19" [C04-b]="C14" [C01-b]="C07" [C01-a-r2]="C08" [C06-b-r2]="C04 C05 C14" [C05-b-r2]="C04" [C13-a-r2]="C12" [C14-b-r2]="C12" [C12-a-r2]="C13" [C08-a-r2]="C12" [C02-a-r2]="C04" [C07-b-r2]="C04" [C11-b-r2]="C03" [C03-a-r2]="C11" [C20-b-r2]="C05" [C13-b-r2]="C01" [C09-b-r2]="C04 C05" [C10-b-r2]="C04" [C09-b-r3]="C05" [C05-a-r3]="C04" [C05-b-r3]="C14" [C04-a-r3]="C14 C06" [C04-b-r3]="C08 C05" [C08-b-r3]="C04" [C06-a-r3]="C04 C14" [C14-a-r3]="C04 C06" [C12-a-r3]="C13 C08" [C13-a-r3]="C12 C08" [C08-a-r3]="C12 C13" [C17-a-r3]="C19" [C19-a-r3]="C17" [C18-b-r3]="C19" [C19-b-r3]="C18" [C10-a-r3]="C20 C04" [C20-a-r3]="C11" [C15-a-r3]="C06 C16" [C01-a-r3]="C11" [C01-b-r3]="C15" [C12-b-r3]="C08" [C11-b-r3]="C03" [C02-a-r3]="C08" [C04-b-r4]="C06 C14 C11" [C06-b-r4]="C04 C14" [C09-b-r4]="C04" [C19-b-r4]="C04 C14" [C14-b-r4]="C04 C19" [C13-b-r4]="C04" [C11-b-r4]="C04 C06" [C17-b-r4]="C14 C04" [C05-b-r4]="C04" [C12-b-r4]="C04 C11" [C01-b-r4]="C04 C08" [C07-b-r4]="C04" [C08-b-r4]="C04" [C15-b-r4]="C04" [C16-b-r4]="C04" [C18-b-r4]="C04" [C02-b-r4]="C04" [C03-b-r4]="C20" [C10-b-r4]="C20 C04" [C20-a-r4]="C03 C11" [C18-a-r4]="C07 C09" [C11-a-r4]="C12" [C13-a-r4]="C12 C08" [C08-a-r4]="C12" [C01-a-r4]="C07")
-for d in ${SEEDS:-seeded/C*-[ab] seeded/C*-[ab]-r2 seeded/C*-[ab]-r3 seeded/C*-[ab]-r4}; do
+declare -A EXTRA=( [C05-b]="C16" [C08-a]="C04 C05" [C08-b]="C12" [C10-b]="C20" [C11-a]="C12" [C12-a]="C11" [C13-a]="C04" [C13-b]="C01" [C19-b]="C04 C05" [C04-a]="C05 C13" [C03-b]="C19" [C04-b]="C14" [C01-b]="C07" [C01-a-r2]="C08" [C06-b-r2]="C04 C05 C14" [C05-b-r2]="C04" [C13-a-r2]="C12" [C14-b-r2]="C12" [C12-a-r2]="C13" [C08-a-r2]="C12" [C02-a-r2]="C04" [C07-b-r2]="C04" [C11-b-r2]="C03" [C03-a-r2]="C11" [C20-b-r2]="C05" [C13-b-r2]="C01" [C09-b-r2]="C04 C05" [C10-b-r2]="C04" [C09-b-r3]="C05" [C05-a-r3]="C04" [C05-b-r3]="C14" [C04-a-r3]="C14 C06" [C04-b-r3]="C08 C05" [C08-b-r3]="C04" [C06-a-r3]="C04 C14" [C14-a-r3]="C04 C06" [C12-a-r3]="C13 C08" [C13-a-r3]="C12 C08" [C08-a-r3]="C12 C13" [C17-a-r3]="C19" [C19-a-r3]="C17" [C18-b-r3]="C19" [C19-b-r3]="C18" [C10-a-r3]="C20 C04" [C20-a-r3]="C11" [C15-a-r3]="C06 C16" [C01-a-r3]="C11" [C01-b-r3]="C15" [C12-b-r3]="C08" [C11-b-r3]="C03" [C02-a-r3]="C08" [C04-b-r4]="C06 C14 C11" [C06-b-r4]="C04 C14" [C09-b-r4]="C04" [C19-b-r4]="C04 C14" [C14-b-r4]="C04 C19" [C13-b-r4]="C04" [C11-b-r4]="C04 C06" [C17-b-r4]="C14 C04" [C05-b-r4]="C04" [C12-b-r4]="C04 C11" [C01-b-r4]="C04 C08" [C07-b-r4]="C04" [C08-b-r4]="C04" [C15-b-r4]="C04" [C16-b-r4]="C04" [C18-b-r4]="C04" [C02-b-r4]="C04" [C03-b-r4]="C20" [C10-b-r4]="C20 C04" [C20-a-r4]="C03 C11" [C18-a-r4]="C07 C09" [C11-a-r4]="C12" [C13-a-r4]="C12 C08" [C08-a-r4]="C12" [C01-a-r4]="C07" [C02-a-r5]="C09" [C02-b-r5]="C07 C13" [C03-a-r5]="C07 C19" [C03-b-r5]="C11" [C04-a-r5]="C08" [C04-b-r5]="C02 C09" [C05-a-r5]="C04" [C05-b-r5]="C04 C14" [C06-a-r5]="C04" [C06-b-r5]="C15" [C07-a-r5]="C08 C16" [C08-b-r5]="C12" [C09-a-r5]="C04" [C09-b-r5]="C12" [C10-a-r5]="C02" [C10-b-r5]="C04" [C11-a-r5]="C20" [C11-b-r5]="C04" [C12-a-r5]="C11 C04" [C12-b-r5]="C02 C17" [C13-a-r5]="C01" [C13-b-r5]="C01 C11" [C14-a-r5]="C09 C04" [C14-b-r5]="C04 C05" [C15-a-r5]="C04" [C16-b-r5]="C04" [C17-a-r5]="C02 C09" [C17-b-r5]="C02" [C18-a-r5]="C12" [C18-b-r5]="C04 C19" [C19-a-r5]="C07" [C19-b-r5]="C13 C04" [C20-a-r5]="C04" [C20-b-r5]="C11")
+for d in ${SEEDS:-seeded/C*-[ab] seeded/C*-[ab]-r2 seeded/C*-[ab]-r3 seeded/C*-[ab]-r4 seeded/C*-[ab]-r5}; do
   s=$(basename $d); own=${s%%-*}
   : > $d/caught.txt
   for id in $own ${EXTRA[$s]:-}; do
